@@ -1,5 +1,5 @@
 (* C11: closed forms of the translated counter methods and the counter laws. *)
-From NV Require Import Lib.Base Lib.Bits Lib.BV Gen.GenCounter C11.Model.
+From NV Require Import Lib.Base Lib.Bits Lib.BV C09.Abs C09.AbsSound Gen.GenCounter C11.Equiv C11.Model.
 From Coq Require Import String ZifyN ZifyNat ZifyBool.
 Open Scope N_scope.
 Ltac Zify.zify_post_hook ::= Z.div_mod_to_equations.
@@ -20,7 +20,28 @@ Definition Inv (c : N) : Prop := c < 2 ^ 24.
 Lemma translator_complete : counter_unknown = [] /\ counter_is_single_uint32 = true.
 Proof. split; reflexivity. Qed.
 
-Local Ltac symex := unfold run; cbn; unfold wrap; cbn [tbits].
+(* the methods translated from the current source are equivalent to the pinned ones, expression by
+   expression (syntactically equal, or total with the same 64-bit provenance vector) *)
+Lemma gen_equiv_pinned : table_equiv no_mask pinned_methods counter_methods pinned_methods = true.
+Proof. vm_compute. reflexivity. Qed.
+
+Lemma cstate_ok c : c < 2 ^ 64 -> st_ok (cstate c).
+Proof. intro H. unfold st_ok, cstate. cbn. repeat split; try (change (2 ^ 64) with 18446744073709551616; lia). constructor. Qed.
+
+(* hence running a method of the current source is running the pinned one *)
+Lemma run_is_run_p m c args n : c < 2 ^ 64 -> arity_of pinned_methods m = Some n -> List.length args = n ->
+  run m c args = run_p m c args.
+Proof.
+  intros Hc Ha Hl. unfold run, run_p, cmethods, pmethods.
+  pose proof (lookup_equiv no_mask pinned_methods m counter_methods pinned_methods gen_equiv_pinned) as Hb.
+  rewrite arity_assoc in Ha. unfold lk1 at 1, lk2 at 1.
+  destruct (assoc_s m counter_methods) as [b1|]; destruct (assoc_s m pinned_methods) as [[n' b2]|]; try contradiction; try discriminate Ha.
+  inversion Ha; subst n'. cbn [option_map snd]. rewrite <- Hl in Hb.
+  destruct (exec_equiv no_mask eq_refl counter_methods pinned_methods gen_equiv_pinned 3 (cstate c) args [] b1 b2 (cstate_ok c Hc) Hb) as [E _].
+  rewrite E. reflexivity.
+Qed.
+
+Local Ltac symex := unfold run_p; cbn; unfold wrap; cbn [tbits].
 
 Lemma c24 : 16777215 = N.ones 24. Proof. reflexivity. Qed.
 Lemma p24 : 2 ^ 24 = 16777216. Proof. reflexivity. Qed.
@@ -33,27 +54,27 @@ Proof. change (16777215 mod 2 ^ 32) with (N.ones 24). apply land_ones_mod. Qed.
 
 (* ---- closed forms (for every 32-bit field value c) ---- *)
 
-Lemma run_mask c : run "maskTo24Bits" c [] = Ok (c mod 2 ^ 24, RNone).
+Lemma runp_mask c : run_p "maskTo24Bits" c [] = Ok (c mod 2 ^ 24, RNone).
 Proof. symex. rewrite mask24_closed. reflexivity. Qed.
 
-Lemma run_Get c : run "Get" c [] = Ok (c mod 2 ^ 24, RVal (c mod 2 ^ 24)).
+Lemma runp_Get c : run_p "Get" c [] = Ok (c mod 2 ^ 24, RVal (c mod 2 ^ 24)).
 Proof. symex. rewrite mask24_closed. reflexivity. Qed.
 
-Lemma run_AddOne c : c < 2 ^ 32 -> run "AddOne" c [] = Ok ((c + 1) mod 2 ^ 24, RNone).
+Lemma runp_AddOne c : c < 2 ^ 32 -> run_p "AddOne" c [] = Ok ((c + 1) mod 2 ^ 24, RNone).
 Proof.
   intro Hc. symex. rewrite mask24_closed.
   change (1 mod 2 ^ 32) with 1.
   rewrite (mod_mod_pow (c + 1) 24 32) by lia. reflexivity.
 Qed.
 
-Lemma run_SQN c : run "SQN" c [] = Ok (c, RVal (c mod 2 ^ 8)).
+Lemma runp_SQN c : run_p "SQN" c [] = Ok (c, RVal (c mod 2 ^ 8)).
 Proof.
   symex. change (255 mod 2 ^ 32) with (N.ones 8). rewrite land_ones_mod.
   rewrite N.mod_mod by (apply N.pow_nonzero; lia). reflexivity.
 Qed.
 
-Lemma run_Overflow c : c < 2 ^ 32 ->
-  run "Overflow" c [] = Ok (c, RVal ((c / 2 ^ 8) mod 2 ^ 16)).
+Lemma runp_Overflow c : c < 2 ^ 32 ->
+  run_p "Overflow" c [] = Ok (c, RVal ((c / 2 ^ 8) mod 2 ^ 16)).
 Proof.
   intro Hc. symex.
   change (16776960 mod 2 ^ 32) with (N.shiftl (N.ones 16) 8).
@@ -83,8 +104,8 @@ Proof.
     + rewrite p8, p24. lia.
 Qed.
 
-Lemma run_SetSQN c s : c < 2 ^ 32 -> s < 2 ^ 8 ->
-  run "SetSQN" c [s] = Ok ((c / 2 ^ 8) * 2 ^ 8 + s, RNone).
+Lemma runp_SetSQN c s : c < 2 ^ 32 -> s < 2 ^ 8 ->
+  run_p "SetSQN" c [s] = Ok ((c / 2 ^ 8) * 2 ^ 8 + s, RNone).
 Proof.
   intros Hc Hs. symex.
   change (4294967040 mod 2 ^ 32) with 4294967040.
@@ -94,8 +115,8 @@ Proof.
   rewrite lor_disjoint_add by assumption. reflexivity.
 Qed.
 
-Lemma run_SetOverflow c o : c < 2 ^ 32 -> o < 2 ^ 16 ->
-  run "SetOverflow" c [o] =
+Lemma runp_SetOverflow c o : c < 2 ^ 32 -> o < 2 ^ 16 ->
+  run_p "SetOverflow" c [o] =
   Ok ((c / 2 ^ 24) * 2 ^ 24 + o * 2 ^ 8 + c mod 2 ^ 8, RNone).
 Proof.
   intros Hc Ho. symex.
@@ -120,12 +141,56 @@ Proof.
   reflexivity.
 Qed.
 
-Lemma run_Set_compose c o s :
+Lemma runp_Set_compose c o s :
+  run_p "Set" c [o; s] =
+  (r1 <- run_p "SetOverflow" c [o] ;; r2 <- run_p "SetSQN" (fst r1) [s] ;; Ok (fst r2, RNone)).
+Proof.
+  unfold run_p; cbn; unfold wrap; cbn [tbits].
+  rewrite !N.mod_mod by (apply N.pow_nonzero; lia). reflexivity.
+Qed.
+
+
+(* ---- the same closed forms for the methods of the CURRENT source, by gen_equiv_pinned ---- *)
+Local Ltac xfer n := rewrite (run_is_run_p _ _ _ n) by (first [assumption | reflexivity | (eapply N.lt_trans; [eassumption|reflexivity])]).
+
+Lemma lt32_64 c : c < 2 ^ 32 -> c < 2 ^ 64.
+Proof. intro H. eapply N.lt_trans; [exact H|reflexivity]. Qed.
+
+Lemma run_mask c : c < 2 ^ 64 -> run "maskTo24Bits" c [] = Ok (c mod 2 ^ 24, RNone).
+Proof. intro H. rewrite (run_is_run_p "maskTo24Bits" c [] 0%nat H eq_refl eq_refl). apply runp_mask. Qed.
+
+Lemma run_Get c : c < 2 ^ 64 -> run "Get" c [] = Ok (c mod 2 ^ 24, RVal (c mod 2 ^ 24)).
+Proof. intro H. rewrite (run_is_run_p "Get" c [] 0%nat H eq_refl eq_refl). apply runp_Get. Qed.
+
+Lemma run_AddOne c : c < 2 ^ 32 -> run "AddOne" c [] = Ok ((c + 1) mod 2 ^ 24, RNone).
+Proof. intro H. rewrite (run_is_run_p "AddOne" c [] 0%nat (lt32_64 c H) eq_refl eq_refl). apply runp_AddOne. exact H. Qed.
+
+Lemma run_SQN c : c < 2 ^ 64 -> run "SQN" c [] = Ok (c, RVal (c mod 2 ^ 8)).
+Proof. intro H. rewrite (run_is_run_p "SQN" c [] 0%nat H eq_refl eq_refl). apply runp_SQN. Qed.
+
+Lemma run_Overflow c : c < 2 ^ 32 ->
+  run "Overflow" c [] = Ok (c, RVal ((c / 2 ^ 8) mod 2 ^ 16)).
+Proof. intro H. rewrite (run_is_run_p "Overflow" c [] 0%nat (lt32_64 c H) eq_refl eq_refl). apply runp_Overflow. exact H. Qed.
+
+Lemma run_SetSQN c s : c < 2 ^ 32 -> s < 2 ^ 8 ->
+  run "SetSQN" c [s] = Ok ((c / 2 ^ 8) * 2 ^ 8 + s, RNone).
+Proof. intros H Hs. rewrite (run_is_run_p "SetSQN" c [s] 1%nat (lt32_64 c H) eq_refl eq_refl). apply runp_SetSQN; assumption. Qed.
+
+Lemma run_SetOverflow c o : c < 2 ^ 32 -> o < 2 ^ 16 ->
+  run "SetOverflow" c [o] =
+  Ok ((c / 2 ^ 24) * 2 ^ 24 + o * 2 ^ 8 + c mod 2 ^ 8, RNone).
+Proof. intros H Ho. rewrite (run_is_run_p "SetOverflow" c [o] 1%nat (lt32_64 c H) eq_refl eq_refl). apply runp_SetOverflow; assumption. Qed.
+
+Lemma run_Set_compose c o s : c < 2 ^ 32 -> o < 2 ^ 16 ->
   run "Set" c [o; s] =
   (r1 <- run "SetOverflow" c [o] ;; r2 <- run "SetSQN" (fst r1) [s] ;; Ok (fst r2, RNone)).
 Proof.
-  unfold run; cbn; unfold wrap; cbn [tbits].
-  rewrite !N.mod_mod by (apply N.pow_nonzero; lia). reflexivity.
+  intros Hc Ho.
+  rewrite (run_is_run_p "Set" c [o; s] 2%nat (lt32_64 c Hc) eq_refl eq_refl), runp_Set_compose.
+  rewrite runp_SetOverflow, run_SetOverflow by assumption. cbn [obind fst].
+  assert (Hx : c / 2 ^ 24 * 2 ^ 24 + o * 2 ^ 8 + c mod 2 ^ 8 < 2 ^ 64).
+  { apply lt32_64. rewrite p32, p24, p8 in *. rewrite p16 in Ho. lia. }
+  rewrite (run_is_run_p "SetSQN" _ [s] 1%nat Hx eq_refl eq_refl). reflexivity.
 Qed.
 
 (* ---- the abstract counter: overflow (16 bits) || sequence number (8 bits) ---- *)
@@ -181,11 +246,11 @@ Proof.
     rewrite p24. unfold abs, spec_step. rewrite p8, p16.
     split; [lia|].
     destruct (N.eqb_spec (c mod 256) 255) as [E|E]; f_equal; f_equal; lia.
-  - rewrite run_Get.
+  - rewrite run_Get by (apply lt32_64; assumption).
     eexists _, _. split; [reflexivity|].
     rewrite p24. unfold abs, spec_step. rewrite p8.
     split; [lia|]. f_equal; [f_equal; lia|f_equal; lia].
-  - rewrite run_SQN.
+  - rewrite run_SQN by (apply lt32_64; assumption).
     eexists _, _. split; [reflexivity|].
     unfold abs, spec_step. split; [lia|]. reflexivity.
   - rewrite run_Overflow by assumption.
